@@ -331,7 +331,7 @@ def k3_runner(which):
     def run(prop, tier, seed):
         import k3
         t = time.time()
-        specs = {"c09": k3.scenarios_c09, "c13": k3.scenarios_c13, "c14": k3.scenarios_c14, "c11": k3.scenarios_c11}[which](tier)
+        specs = {"c09": k3.scenarios_c09, "c13": k3.scenarios_c13, "c14": k3.scenarios_c14, "c11": k3.scenarios_c11, "c10": k3.scenarios_c10}[which](tier)
         rs = k3.run_scenarios(specs, tier, seed)
         out = k3.summarise("K3/" + which, rs, prop + "-schedule")
         if which == "c14":
@@ -388,12 +388,14 @@ def k4_run(prop, tier, seed):
 CANDIDATES = {
     "C01": K1Spec("C01", ["C01"], more_profiles=["C04"], extra=[lambda prop, tier, seed: __import__("k_extra").run_c01_faults(prop, tier, seed)]),
     "C02": K1Spec("C02", ["C02"]),
-    "C03": K1Spec("C03", ["C03", "C02-read"], extra=[plain_run, c03_order], more_profiles=["C03b"]),
+    "C03": K1Spec("C03", ["C03", "C02-read", "C01/C04"], extra=[plain_run, c03_order], more_profiles=["C03b"]),
     "C04": K1Spec("C04", ["C01/C04"]),
-    "C11": K1Spec("C11", ["C11"], extra=[lambda prop, tier, seed: k3_runner("c11")(prop, tier, seed)]),
+    "C11": K1Spec("C11", ["C11"], extra=[lambda prop, tier, seed: k3_runner("c11")(prop, tier, seed),
+                                         lambda prop, tier, seed: __import__("k_extra").run_c11_foreign(prop, tier, seed)]),
     "C12": K1Spec("C12", ["C12", "C01", "C03-result"]),
     "C17": K1Spec("C17", ["C17"], extra=[lambda prop, tier, seed: KBufSpec(["C17"], ["C17"])._run("C17", seed, 32 if tier == "quick" else 1500, 40),
-                                           lambda prop, tier, seed: KBufSpec(["C17cap"], ["C17"])._run("C17cap", seed + 3, 32 if tier == "quick" else 1500, 40)]),
+                                           lambda prop, tier, seed: KBufSpec(["C17cap"], ["C17"])._run("C17cap", seed + 3, 32 if tier == "quick" else 1500, 40),
+                                           lambda prop, tier, seed: __import__("kbuf").run_buf_faults(prop, tier, seed)]),
     "C05": KBufSpec(["C05", "C05cap"], ["C05", "C15-zero", "C15-capacity"], findings=("D19",),
                     extra=[k1_in_buffer, lambda prop, tier, seed: __import__("kbuf").run_c05_diff(prop, tier, seed),
                            lambda prop, tier, seed: __import__("kbuf").run_buf_faults(prop, tier, seed)]),
@@ -407,7 +409,7 @@ CANDIDATES = {
                     expl="Theorems in coq/Props/C09.v: serializability of lock-protected operations for every schedule (any number of threads, locks, "
                          "step granularity) + the computed fact that every mutator program is well locked; programs tied to the code by K2 lock-event "
                          "traces (exhaustive over kinds x injectable faults), failing-input search = K3 schedule exploration on real threads."),
-    "C10": ConcSpec([k2_run, k3_runner("c13")], trust=CONC_TRUST, assume=CONC_ASSUME,
+    "C10": ConcSpec([k2_run, k3_runner("c10")], trust=CONC_TRUST, assume=CONC_ASSUME,
                     expl="Theorems in coq/Props/C10.v: no_leak / respects_order decide the property for every fault assignment; no wait-for cycle under a strict lock "
                          "order; computed for every operation program; K2 traces tie the programs to the code and check, after every faulted operation, "
                          "that a second thread can still operate on the same and on another file; K3 detects deadlocks on real schedules."),
